@@ -1059,6 +1059,8 @@ class TLSRecordLayer(object):
                 if recordHeader.type == ContentType.alert:
                     alert = Alert().parse(p)
                     raise TLSRemoteAlert(alert)
+                # anything else does not explain the failure: report it
+                raise
             else:
                 # If we got some other message who know what
                 # the remote side is doing, just go ahead and
